@@ -511,22 +511,44 @@ func vcfsRunSchedule(scn vcfsConcScenario) []vcfsEvent {
 			if done[si] {
 				continue
 			}
-			gp := gate.take(st.Data, 250*time.Millisecond)
-			for tries := 0; gp == nil && tries < 4; tries++ {
-				// The commitBlock goroutines of one flush start in any order: if a write that
-				// the schedule releases LATER is waiting in front of the expected one (it holds
-				// the throttle), release that one now with its own outcome.
+			// Wait for the expected write until it is at the gate, or until NOTHING can bring it
+			// there any more: no goroutine of the process is running or runnable (a quiescence
+			// test, not a timeout; the cap only bounds a livelock and is never reached in practice).
+			quiet := func() bool {
+				for i := 0; i < 3; i++ {
+					if vcfsAnyRunnable() {
+						return false
+					}
+					time.Sleep(500 * time.Microsecond)
+				}
+				return true
+			}
+			var gp *vcfsGated
+			swaps := 0
+			for t0 := time.Now(); gp == nil && time.Since(t0) < 30*time.Second; {
+				if gp = gate.take(st.Data, 2*time.Millisecond); gp != nil || !quiet() {
+					continue
+				}
+				if gp = gate.take(st.Data, 0); gp != nil {
+					break
+				}
+				// Quiescent without it.  The commitBlock goroutines of one flush start in any
+				// order: if a write that the schedule releases LATER is waiting in front of the
+				// expected one (it holds the throttle), release that one now with its own outcome.
 				swapped := false
-				for j := si + 1; j < len(scn.Steps) && !swapped; j++ {
+				for j := si + 1; j < len(scn.Steps) && !swapped && swaps < 4; j++ {
 					if scn.Steps[j].Op == "put" && !done[j] {
 						if other := gate.take(scn.Steps[j].Data, 0); other != nil {
 							other.rel <- scn.Steps[j].OK
 							done[j] = true
 							swapped = true
+							swaps++
 						}
 					}
 				}
-				gp = gate.take(st.Data, 400*time.Millisecond)
+				if !swapped {
+					break // the code does not issue this write here: the schedule is not followed
+				}
 			}
 			if gp == nil {
 				unapplied++
